@@ -183,7 +183,17 @@ def classify_exc(exc, block_exc):
 
 
 # arguments of the factory call / of the decorated function: also under names a wrapper might use itself
+async def _a_callback(*args):
+    """an argument that happens to be a coroutine function (an async report hook handed to the manager)"""
+
+
+def _a_function(*args):
+    """... or a plain function"""
+
+
 CALLS = {"none": ((), {}), "pos": (("x", 2), {}), "kw": ((), {"a": 1}),
+         # exactly one positional argument, and it is a (coroutine) function: still an ARGUMENT of the factory
+         "pos-corofn": ((_a_callback,), {}), "pos-fn": ((_a_function,), {}),
          "kw-func": ((), {"func": "F"}), "kw-self": (("x",), {"self": "S", "func": "F"}),
          "kw-args": ((), {"args": (1,), "kwds": {"k": 1}, "cls": "C"})}
 
